@@ -23,7 +23,7 @@ def run_harness(name, timeout_s=900, mem_kb=24_000_000, playback=True):
         args += ["-Z", "concrete-playback", "--concrete-playback=print"]
     cmd = "ulimit -v %d; exec timeout %d %s" % (mem_kb, timeout_s, " ".join(args))
     t0 = time.time()
-    with open(logf, "w") as fh:
+    with open(logf, "w") as fh, common.scratch_manifest(KANI_DIR):
         r = subprocess.run(["bash", "-c", cmd], cwd=KANI_DIR, stdout=fh, stderr=subprocess.STDOUT,
                            env=common.env_offline({"RUSTFLAGS": "--cfg %s" % common.GUARD}))
     wall = time.time() - t0
